@@ -126,7 +126,18 @@ func childC20(args []string) int {
 	seen := make(chan string, 4096)
 	var hold atomic.Pointer[chan struct{}]
 	heldNow := make(chan struct{}, 1)
+	var armedWrite atomic.Pointer[c20Step]
+	fire := func() {
+		if st := armedWrite.Swap(nil); st != nil {
+			os.MkdirAll(filepath.Dir(st.Path), 0o755)
+			os.WriteFile(st.Path, []byte(st.Content), 0o644)
+		}
+	}
 	hookPrefix(script.Root, func(point, arg string, n int) {
+		if point == "scan.beforeRead" {
+			fire() // a change that lands in the middle of a directory scan (e.g. Configure's own)
+			return
+		}
 		if point != "watch.event" {
 			return
 		}
@@ -275,6 +286,11 @@ func childC20(args []string) int {
 				if err := os.WriteFile(tmp, []byte(st.Content), 0o644); err == nil {
 					os.Rename(tmp, st.Path)
 				}
+			case "arm-write":
+				cp := st
+				armedWrite.Store(&cp)
+			case "fire":
+				fire()
 			case "write-in-place":
 				os.MkdirAll(filepath.Dir(st.Path), 0o755)
 				os.WriteFile(st.Path, []byte(st.Content), 0o644)
@@ -480,7 +496,18 @@ func checkC20(c *Ctx) {
 				st.Dirs, st.Auto = curDirs, boolp(curAuto)
 				sig = append(sig, "DA")
 			}
+			if !exhausted && curAuto && chance(r, 20) {
+				// a file appears in one of the final directories while Configure is scanning
+				n++
+				d := curDirs[r.Intn(len(curDirs))]
+				if d != anchor {
+					steps = append(steps, c20Step{Op: "arm-write", Path: filepath.Join(d, "midscan.json"), Content: c20SpecContent(fmt.Sprintf("mid%d", n))})
+					sig = append(sig, "M")
+					c.Count("changes_armed_for_configure_scan", 1)
+				}
+			}
 			steps = append(steps, st)
+			steps = append(steps, c20Step{Op: "fire"})
 			if held && chance(r, 70) {
 				for i := 0; i < r.Intn(3); i++ {
 					fsop()
@@ -511,7 +538,7 @@ func checkC20(c *Ctx) {
 			kept := steps[: last+1 : last+1]
 			for _, st := range steps[last+1:] {
 				switch st.Op {
-				case "write", "write-in-place", "remove", "mkdir", "rmdir":
+				case "write", "write-in-place", "remove", "mkdir", "rmdir", "arm-write", "fire":
 				default:
 					kept = append(kept, st)
 				}
